@@ -149,15 +149,19 @@ def _r_qu(ck, ctx, world, table, rules, infos) -> None:
         apply_r = table.resolve(rule, 'apply')
         if apply_r is None or not isinstance(apply_r.node, ast.FunctionDef):
             raise AnalysisError(f'anchor vanished: {rule.name}.apply')
-        for lc in info.left:
-            for rc in info.right:
+        # every combination twice: with two unrelated angle arrays, and with both operators holding the very same array
+        # (a rule may compare the operands or their parameters by identity)
+        for lc, rc, shared in [(l_, r_, sh) for l_ in info.left for r_ in info.right for sh in (False, True)]:
+            if shared and not ({lc, rc} <= {pol.rot, pol.rott}):
+                continue
+            if True:
                 for kind in pol.kinds:
                     L = pol.letters(kind)
-                    inst = f'{lc.name} . {rc.name} on {L}'
+                    inst = f'{lc.name} . {rc.name} on {L}' + (' (one angle array)' if shared else '')
                     ncases += 1
                     S = Opaque('shared structure')
                     left = _make(pol, lc, aL, S)
-                    right = _make(pol, rc, aR, S)
+                    right = _make(pol, rc, aL if shared else aR, S)
                     rule_obj = SymObj(rule, {})
                     try:
                         out = pol.interp.call_function(apply_r.node, [rule_obj, left, right], {}, owner=apply_r.owner)
@@ -165,7 +169,7 @@ def _r_qu(ck, ctx, world, table, rules, infos) -> None:
                         if exc.name == 'NoReduction':
                             ck.ok('R-QU', apply_r.node, 'no rewrite for this combination (NoReduction)', instance=inst, nontrivial=False)
                         else:
-                            ck.bad('R-QU', apply_r.node, f'apply raises {exc.name} for a declared combination: reduce() would raise', instance=inst)
+                            ck.bad('R-QU', apply_r.node, f'apply raises {exc.name} for a declared combination: reduce() would raise', instance=inst, semantic=True)
                         continue
                     except Incomplete as exc:
                         ck.incomplete('R-QU', apply_r.node, f'{exc.site}: {exc.why}', instance=inst)
@@ -185,7 +189,7 @@ def _r_qu(ck, ctx, world, table, rules, infos) -> None:
                         got = Matrix.identity(want.cols)
                     ck.expect('R-QU', got == want, apply_r.node,
                               f'M(left) M(right) = product of the rewritten operators {[o.cls.name for o in out]} for all angles',
-                              f'{rule.name} rewrites {lc.name} . {rc.name} into {[o.cls.name for o in out]}, whose matrix {got} differs from the original product {want}', instance=inst)
+                              f'{rule.name} rewrites {lc.name} . {rc.name} into {[o.cls.name for o in out]}, whose matrix {got} differs from the original product {want}', instance=inst, semantic=True)
                     # structures of newly built operators
                     for o in out:
                         if o is left or o is right:
